@@ -49,3 +49,13 @@ CONSTS = [
      "sd_to_bytes('S-1-5-18', 'S-1-5-32-544', sacl=[ace_to_bytes('S-1-5-18', 1)], dacl=[ace_to_bytes('S-1-1-0', 2)])", "bytes"),
     ("c_sd_vec_target", "dpapi_ng._blob", "ProtectionDescriptor.parse('S-1-5-21-1-2-3-500').get_target_sd()", "bytes"),
 ]
+
+# whole functions as Prelude/PyAst syntax; world coq/Flow/World_sd.v, tie theorems in coq/Proofs/Flow_sd_enc.v
+from ..flow import Flow  # noqa: E402
+
+FLOWS = [
+    Flow("k_flow_sid_to_bytes", F, "sid_to_bytes", props=("C08",)),
+    Flow("k_flow_ace_to_bytes", F, "ace_to_bytes", props=("C08",)),
+    Flow("k_flow_acl_to_bytes", F, "acl_to_bytes", props=("C08",)),
+    Flow("k_flow_sd_to_bytes", F, "sd_to_bytes", props=("C08",)),
+]
